@@ -390,6 +390,43 @@ fn suite_raw(g: &Gram, out: &mut Out, rng: &mut Rng, n: usize) {
     }
 }
 
+/// An undeclared bit in the mask operand / an undeclared value of the enum operand of one instruction per kind, at module
+/// level and inside a block: if the loader accepts such a binary (the pinned tree rejects it), the word must come back.
+fn suite_undeclared(g: &Gram, out: &mut Out, rng: &mut Rng) {
+    let gen = Gen { g };
+    let mut kinds: Vec<&String> = g.kinds.keys().collect();
+    kinds.sort();
+    for kind in kinds {
+        let bad: u32 = match &g.kinds[kind] {
+            KindG::BitEnum { all, .. } => { let free = !*all; if free == 0 { continue; } 0x8000_0000u32 >> (free.leading_zeros()) }
+            KindG::ValueEnum { values } => values.iter().map(|v| v.0).max().unwrap_or(0) + 1,
+            KindG::Other => continue,
+        };
+        let Some((op, idx)) = site_of_kind(g, kind) else { continue };
+        let mut ctx = Ctx::new();
+        let mut plan = Plan { optionals: Some(usize::MAX), variadic: Some(1), forced: Default::default() };
+        let base = match &g.kinds[kind] { KindG::BitEnum { .. } => 0, KindG::ValueEnum { values } => values[0].0, _ => 0 };
+        plan.forced.insert(idx, base);
+        NO_CTX.with(|c| c.set(true));
+        let mut inst = gen.inst(op, rng, &mut ctx, &plan);
+        NO_CTX.with(|c| c.set(false));
+        if !ctx.decls.is_empty() { continue; }
+        // only when the declared value has no parameters does replacing the word keep the instruction's shape
+        if !gen.params_of(kind, base).is_empty() { continue; }
+        let Some(o) = inst.ops.iter_mut().find(|o| &o.k == kind) else { continue };
+        o.w[0] = if matches!(&g.kinds[kind], KindG::BitEnum { .. }) { o.w[0] | bad } else { bad };
+        for in_block in [false, true] {
+            let mut ws: Vec<u32> = HEADER.to_vec();
+            ws[3] = 4000;
+            if in_block { ws.extend([(5 << 16) | 54, 9001, 9002, 0, 9003, (2 << 16) | 248, 9004]); }
+            ws.extend(inst.encode());
+            if in_block { ws.extend([(1 << 16) | 253, (1 << 16) | 56]); }
+            out.ev(json!({"ev": "rawload", "tag": "raw-undeclared", "layout": !in_block, "in_words": jws(&ws), "in_version": jw(ws[1]), "in_bound": jw(ws[3]),
+                          "words": load_words_event(&ws)}));
+        }
+    }
+}
+
 /// Context-dependent literals of every declared width with boundary bit patterns (high bits set above a narrow
 /// type's width, sign bits, all ones): OpConstant / OpSpecConstant after their type, OpSwitch on typed selectors.
 /// Layout-ordered, so the round trip must be word-identical.
@@ -430,7 +467,7 @@ pub fn drive(args: &[String]) {
         "classes" => suite_classes(&g, &mut out, &mut rng, arg(args, "--histories").expect("--histories"), arg_num(args, "--reps", 1) as usize),
         "sweep" => suite_sweep(&g, &mut out, &mut rng),
         "random" => suite_random(&g, &mut out, &mut rng, n),
-        "raw" => suite_raw(&g, &mut out, &mut rng, n),
+        "raw" => { suite_undeclared(&g, &mut out, &mut rng); suite_raw(&g, &mut out, &mut rng, n) }
         "enums" => suite_enums(&g, &mut out, &mut rng),
         "literals" => suite_literals(&mut out, &mut rng),
         "replay" => {
